@@ -143,6 +143,9 @@ func driveProto(rc *RunCtx) {
 			rc.Res.Probes["bytes_differ_from_fifo_run"]++
 		}
 	}
+	if sc.Bool("countproofs") {
+		countProofs(rc, w)
+	}
 	pr.Sample["strategy"] = sc.Sched.Strategy
 	pr.Sample["prestart"] = sc.Sched.PreStart
 	pr.Sample["faults"] = w.Faults
